@@ -5,6 +5,7 @@ import (
 	"sync"
 	"time"
 
+	age "github.com/craterdog/go-collection-framework/v4/agent"
 	col "github.com/craterdog/go-collection-framework/v4/collection"
 	"verifharness/lib"
 )
@@ -214,4 +215,114 @@ func init() {
 			return S.Or(S.MakeFromSequence(src), S.Make())
 		}, inPlace),
 	)
+}
+
+// ---------------------------------------------------------------- a sequence the library did not make
+
+// The constructors and bulk operations accept any Sequential[V], also one an application wrote itself -- whose
+// AsArray() hands out its own backing array, which the aspect does not forbid.  What is made from it is a
+// collection of its own: changing it does not reach the application's sequence (nor a sibling made from the same
+// sequence), and changing the sequence later does not reach it.
+type appSequence[V any] struct{ backing []V }
+
+func (s *appSequence[V]) AsArray() []V  { return s.backing }
+func (s *appSequence[V]) GetSize() int  { return len(s.backing) }
+func (s *appSequence[V]) IsEmpty() bool { return len(s.backing) == 0 }
+func (s *appSequence[V]) GetIterator() age.IteratorLike[V] {
+	return age.Iterator[V]().MakeFromArray(s.backing)
+}
+
+func init() {
+	n := lib.Notation()
+	type maker struct {
+		name string
+		make func(src col.Sequential[int]) col.Sequential[int]
+	}
+	makers := []maker{
+		{"Array.MakeFromSequence", func(src col.Sequential[int]) col.Sequential[int] { return col.Array[int](n).MakeFromSequence(src) }},
+		{"List.MakeFromSequence", func(src col.Sequential[int]) col.Sequential[int] { return col.List[int](n).MakeFromSequence(src) }},
+		{"Set.MakeFromSequence", func(src col.Sequential[int]) col.Sequential[int] { return col.Set[int](n).MakeFromSequence(src) }},
+		{"Stack.MakeFromSequence", func(src col.Sequential[int]) col.Sequential[int] { return col.Stack[int](n).MakeFromSequence(src) }},
+		{"Queue.MakeFromSequence", func(src col.Sequential[int]) col.Sequential[int] { return col.Queue[int](n).MakeFromSequence(src) }},
+		{"List.AppendValues", func(src col.Sequential[int]) col.Sequential[int] {
+			l := col.List[int](n).Make()
+			l.AppendValues(src)
+			return l
+		}},
+		{"List.InsertValues", func(src col.Sequential[int]) col.Sequential[int] {
+			l := col.List[int](n).Make()
+			l.InsertValues(0, src)
+			return l
+		}},
+		{"Array.SetValues", func(src col.Sequential[int]) col.Sequential[int] {
+			a := col.Array[int](n).Make(uint(src.GetSize()))
+			if src.GetSize() > 0 {
+				a.SetValues(1, src)
+			}
+			return a
+		}},
+	}
+	change := func(p col.Sequential[int], k int) {
+		switch t := p.(type) {
+		case col.ArrayLike[int]:
+			if t.GetSize() > 0 {
+				t.SetValue(1, -100-k)
+				t.ReverseValues()
+			}
+		case col.ListLike[int]:
+			if t.GetSize() > 0 {
+				t.SetValue(1, -100-k)
+				t.SortValues()
+			}
+			t.AppendValue(-200 - k)
+		case col.SetLike[int]:
+			t.AddValue(-100 - k)
+		case col.StackLike[int]:
+			if t.GetSize() > 0 {
+				t.RemoveTop()
+			}
+		case col.QueueLike[int]:
+			if t.GetSize() > 0 {
+				t.RemoveHead()
+			}
+		}
+	}
+	for _, m := range makers {
+		m := m
+		aliasEntries = append(aliasEntries, aliasEntry{m.name + "/application-sequence", func(size, pos int) (string, string, bool) {
+			src := &appSequence[int]{backing: intsN(size)}
+			first, second := m.make(src), m.make(src)
+			before := fmt.Sprint(src.backing, second.AsArray())
+			change(first, pos)
+			mid := fmt.Sprint(src.backing, second.AsArray())
+			// and the other way round: the application changes its own array
+			kept := fmt.Sprint(first.AsArray())
+			for i := range src.backing {
+				src.backing[i] = -7
+			}
+			after := fmt.Sprint(first.AsArray())
+			return before + kept, mid + after, size > 0
+		}})
+	}
+	// associations a catalog handed out stay what they were, whatever happens to the catalog (or to any other
+	// catalog) afterwards
+	aliasEntries = append(aliasEntries, aliasEntry{"Catalog.AsArray/then-RemoveAll-and-refill", func(size, pos int) (string, string, bool) {
+		C := col.Catalog[int, int](n)
+		a := C.MakeFromArray(assocsN(size))
+		saved := a.AsArray()
+		var walked []col.AssociationLike[int, int]
+		for it := a.GetIterator(); it.HasNext(); {
+			walked = append(walked, it.GetNext())
+		}
+		before := showAssocs(saved) + showAssocs(walked)
+		a.RemoveAll()
+		other := C.Make()
+		for k := 0; k < size+1; k++ {
+			other.SetValue(100+k, 1000+k)
+			a.SetValue(200+k, 2000+k)
+		}
+		merged := C.Merge(a, other)
+		_ = C.Extract(merged, merged.GetKeys())
+		return before, showAssocs(saved) + showAssocs(walked), size > 0
+	}})
 }
